@@ -477,6 +477,26 @@ def grid_inputs(ctx, names):
             yield name, idx, f"grid:power {m}, bracket^-{k}", True, body ** m * sympy.Pow(br, -k) * rem
 
 
+def mixed_grid_inputs(ctx, names):
+    """deterministic stream for the mixed-prefactor fallback: the complete definition of a multi-term intermediate (fully
+    expanded, and in terms of lower intermediates) with ONE term's prefactor changed, factored together with t2_1"""
+    from adcgen import Intermediates
+    avail = Intermediates().available
+    for name in names:
+        it = avail[name]
+        idx = "".join(it.default_idx)
+        for full in (False, True):
+            body = dist_num(it.expand_itmd(indices=idx, fully_expand=full).sympy)
+            terms = list(sympy.Add.make_args(body))
+            if len(terms) < 2:
+                continue
+            ks = sorted({(ctx.seed + 2 * j) % len(terms) for j in range(ctx.pick(2, len(terms)))})
+            for k in ks:
+                t2 = list(terms)
+                t2[k] = t2[k] * (2 if (k + ctx.seed) % 2 == 0 else Rational(1, 2))
+                yield name, idx, f"mixed-grid: term {k} x prefactor", full, sympy.Add(*t2)
+
+
 def check_factor(ctx, defs):
     from adcgen import Intermediates, Expr, factor_intermediates
     rng = ctx.rng
@@ -484,6 +504,7 @@ def check_factor(ctx, defs):
     tlimit = ctx.pick(60, 120)
     quick_names = ["t2_1", "t1_2", "t2_2", "p0_2_oo", "p0_2_vv", "t2eri_3", "t2eri_5", "t2sq", "t2eri_1", "t2eri_6"]
     grid = list(grid_inputs(ctx, ["t2_1", "t2eri_3", "t2sq"] if ctx.quick() else FACTORABLE))
+    grid += list(mixed_grid_inputs(ctx, ["t2_2"] if ctx.quick() else ["t2_2", "t1_2", "p0_2_oo", "p0_2_vv"]))
     t_end = time.time() + ctx.pick(600, 1500)
     for it in range(n + len(grid)):
         if time.time() > t_end:
@@ -507,7 +528,10 @@ def check_factor(ctx, defs):
         # which intermediates to ask for: the one built in, alone / with others / by type / everything up to an order
         order = Intermediates().available[name].order
         req = rng.choice(["name", "list", "type", "all"])
-        if req == "name":
+        if mode.startswith("mixed-grid"):
+            req = "with-t2_1"
+            tn, mo = ["t2_1", name], None
+        elif req == "name":
             tn, mo = name, None
         elif req == "list":
             others = rng.sample(quick_names, rng.randint(1, 3))
